@@ -404,6 +404,9 @@ def run(ctx: Ctx):
     # ------------------------------------------------------------- FRESH: history independence of returned objects (spec/Fresh.tla)
     from vf import fresh
     fresh.step(ctx, "C19")
+    # ------------------------------------------------------------- VIEW: views after every edit history (spec/View.tla)
+    from vf import view
+    view.step(ctx, "C19")
     return ctx.finish(rule=(
         "FREQ x all subsets of <=2/3 further parts from a pool of 33 part instances (single/multiple, signed, ordinal weekdays, leap "
         "month, three UNTIL kinds, RSCALE, SKIP, X-) in every insertion order; permuted / trailing-';' texts; random many-valued "
